@@ -119,6 +119,7 @@ class Env:
         self.prefix = list(prefix or [])
         self.loop = VLoop()
         self.world = World(self.loop.time, kinds=scenario.kinds, rv0=int(scenario.params.get('rv0', 100)))
+        self.world.framing = str(scenario.params.get('framing', 'line'))     # type: ignore[attr-defined]   # how watch lines are cut into network reads
         self.world.on_write = lambda idx, rec: self.log('write', idx=idx, actor=rec['actor'], name=rec['name'],
                                                         verb=rec['verb'], objkind=rec['kind'])
         self.obs: list[tuple[float, str, dict[str, Any]]] = []
